@@ -89,6 +89,13 @@ Renderings(G) ==
      ud \in BOOLEAN, bp \in (IF G.dsc = 0 THEN {"all"} ELSE BoxPatterns)}
 
 ---------------------------------------------------------------------------
+(* Implementation layer: the block loop of stl.go:ReadFromSTL - one step per 128-byte TTI block; the hook after
+   parseTTIBlock reports the cues appended so far and the block's extension block number (FEh = user data,
+   skipped) *)
+ImplHooks(D) == [i \in DOMAIN D.ttis |->
+                   [items |-> Cardinality({j \in 1..(i - 1) : D.ttis[j].ebn # 254}), ebn |-> D.ttis[i].ebn]]
+
+---------------------------------------------------------------------------
 (* Reference decoder of a text field (from the format description) *)
 \* state: rows done, runs of the current row, current run text, flags, pending diacritic, box open, col, dh
 InitTF == [rows |-> <<>>, runs |-> <<>>, t |-> <<>>, it |-> 0, un |-> 0, bx |-> 0, col |-> -1, dh |-> 0, acc |-> 0, box |-> FALSE]
